@@ -64,6 +64,9 @@ var valRe = regexp.MustCompile(`\(\s*(\(select[^\n]*?\)|[A-Za-z_][A-Za-z0-9_]*)\
 
 // modelInput asks the solver for the input state of the counterexample.
 func modelInput(o *Obl) (string, []byte, bool) {
+	if o.failedPart != nil {
+		o = o.failedPart
+	}
 	it := o.ctx.inputTerms()
 	q := o.query(false)
 	if it == nil {
